@@ -408,13 +408,15 @@ func apply(n ast.Node, op string, replace func(ast.Node)) bool {
 }
 
 type sweepResult struct {
-	Mutants    int               `json:"mutants"`
-	Compiled   int               `json:"compiled"`
-	Killed     int               `json:"killed"`
-	PerOp      map[string][2]int `json:"per_operator_killed_of_compiled"`
-	Unkilled   []string          `json:"unkilled"`
-	Seconds    float64           `json:"seconds"`
-	KilledList []string          `json:"killed_samples"`
+	Mutants         int               `json:"mutants"`
+	Compiled        int               `json:"compiled"`
+	Killed          int               `json:"killed"`
+	PerOp           map[string][2]int `json:"per_operator_killed_of_compiled"`
+	KilledElsewhere int               `json:"reported_only_by_other_checks"`
+	Elsewhere       []string          `json:"reported_elsewhere"`
+	Unkilled        []string          `json:"unkilled"`
+	Seconds         float64           `json:"seconds"`
+	KilledList      []string          `json:"killed_samples"`
 }
 
 // runSweep generates and evaluates the mutants for the functions analysed by
@@ -453,6 +455,7 @@ func runSweep(prop, repo string, funcs []*ssa.Function, p *engine.Program, perFi
 	type outcome struct {
 		m    mutant
 		code int
+		by   []string
 	}
 	outs := make([]outcome, len(all))
 	var wg sync.WaitGroup
@@ -466,9 +469,11 @@ func runSweep(prop, repo string, funcs []*ssa.Function, p *engine.Program, perFi
 			m := all[i]
 			path := filepath.Join(tmp, fmt.Sprintf("m%d.go", i))
 			os.WriteFile(path, m.Src, 0o644)
-			cmd := exec.Command(self, "check", "-property", prop, "-tier", "quick", "-no-evidence", "-repo", repo, "-overlay", m.File+"="+path)
+			// all checks on one load: the edit counts as reported by this check when
+			// this property is among them; other checks' reports are recorded too
+			cmd := exec.Command(self, "checkall", "-repo", repo, "-overlay", m.File+"="+path)
 			cmd.Env = append(os.Environ(), "VERIFSA_CHILD=1")
-			err := cmd.Run()
+			outb, err := cmd.Output()
 			code := 0
 			if ee, ok := err.(*exec.ExitError); ok {
 				code = ee.ExitCode()
@@ -476,7 +481,23 @@ func runSweep(prop, repo string, funcs []*ssa.Function, p *engine.Program, perFi
 				code = 2
 			}
 			os.Remove(path)
-			outs[i] = outcome{m, code}
+			var by []string
+			for _, l := range strings.Split(string(outb), "\n") {
+				if strings.HasPrefix(l, "REPORTED-BY: ") {
+					if t := strings.TrimSpace(strings.TrimPrefix(l, "REPORTED-BY: ")); t != "" {
+						by = strings.Split(t, ",")
+					}
+				}
+			}
+			if code != 2 {
+				code = 0
+				for _, id := range by {
+					if id == prop {
+						code = 1
+					}
+				}
+			}
+			outs[i] = outcome{m, code, by}
 		}(i)
 	}
 	wg.Wait()
@@ -497,7 +518,12 @@ func runSweep(prop, repo string, funcs []*ssa.Function, p *engine.Program, perFi
 			res.Compiled++
 			v := res.PerOp[o.m.Op]
 			res.PerOp[o.m.Op] = [2]int{v[0], v[1] + 1}
-			res.Unkilled = append(res.Unkilled, id)
+			if len(o.by) > 0 {
+				res.KilledElsewhere++
+				res.Elsewhere = append(res.Elsewhere, id+" -> "+strings.Join(o.by, ","))
+			} else {
+				res.Unkilled = append(res.Unkilled, id)
+			}
 		}
 	}
 	res.Seconds = time.Since(t0).Seconds()
